@@ -47,8 +47,12 @@ Effect(e) ==
 \* D3, lost wake-up of the waiter: Set+Broadcast fell between the consumer's empty TryNext and its
 \* Cond.Wait; the consumer is parked without a ticket, not cancelled, and the message it should
 \* deliver next is sitting in the ring.
+\* the recorded lost wake-up: waiter mode, the consumer parked without a pending signal, not cancelled, a live message at
+\* readIndex - and a producer whose Broadcast found NOBODY registered (it fell between the consumer's empty TryNext and its
+\* Wait). A consumer that WAS woken and parked again over an empty ring (e.g. Broadcast issued before the Set) is not it.
 LostWakeupSig(e) == /\ e.a = "Quiesce" /\ e.mode = "waiter" /\ e.peek
                     /\ e.cg = "cond.wake" /\ ~e.cen /\ ~e.cancelled /\ e.liveAtRidx
+                    /\ e.pbwoke = 0
 \* a Close that returns while a returned Write has been neither delivered nor reported: that message will never reach
 \* the wrapped writer - the first sentence of C12 as well as the accounting clause of C11
 Undelivered(e) == e.a = "CloseRet" /\ Len(delivered) + alerts < Cardinality(returned)
